@@ -189,3 +189,24 @@ Proof.
     assert (sqrt (varY my ps) <> 0) as Ny by (intros E; apply NZ; rewrite E; ring).
     assert (a <> 0) as Na by lra. field. repeat split; assumption.
 Qed.
+
+(** ... and by a negative one as well: both vectors are flipped together (x -> -x, or an index
+    stored as "deficit" instead of "surplus"), so the correlation keeps its sign *)
+Theorem rho_affine_neg a b ps : a < 0 -> 0 < NX ps -> 0 < NY ps -> rho (amap_pairs a b ps) = rho ps.
+Proof.
+  intros Ha Px Py. unfold rho. destruct (sums_amap a b ps) as (n1 & n2 & s1 & s2). rewrite n1, n2, s1, s2.
+  set (mx := SX ps / NX ps). set (my := SY ps / NY ps).
+  assert ((a * SX ps + b * NX ps) / NX ps = a * mx + b) as -> by (unfold mx; field; lra).
+  assert ((a * SY ps + b * NY ps) / NY ps = a * my + b) as -> by (unfold my; field; lra).
+  rewrite cov_amap, varX_amap, varY_amap.
+  assert (forall v, 0 <= v -> sqrt (a ^ 2 * v) = - a * sqrt v) as Sq.
+  { intros v Hv. rewrite sqrt_mult by (try apply pow2_ge_0; lra).
+    replace (a ^ 2) with ((- a) ^ 2) by ring. rewrite sqrt_pow2 by lra. reflexivity. }
+  rewrite (Sq (varX mx ps)) by apply varX_nonneg. rewrite (Sq (varY my ps)) by apply varY_nonneg.
+  destruct (Req_dec (sqrt (varX mx ps) * sqrt (varY my ps)) 0) as [Z0|NZ].
+  - unfold Rdiv. replace (- a * sqrt (varX mx ps) * (- a * sqrt (varY my ps))) with (a ^ 2 * (sqrt (varX mx ps) * sqrt (varY my ps))) by ring.
+    rewrite Z0, Rmult_0_r, Rinv_0. ring.
+  - assert (sqrt (varX mx ps) <> 0) as Nx by (intros E; apply NZ; rewrite E; ring).
+    assert (sqrt (varY my ps) <> 0) as Ny by (intros E; apply NZ; rewrite E; ring).
+    assert (a <> 0) as Na by lra. field. repeat split; assumption.
+Qed.
